@@ -61,6 +61,10 @@ def region (name : String) (b : Block) : String :=
         "out F6 converted key has side effects"
       else if name == "remove_nil_declaration" && Rules.NilDeclaration.outsideH driverApi b then
         "out F24 reordered declaration repeats a name"
+      else if name == "remove_unused_variable" then
+        match Rules.UnusedVariable.outsideH driverApi b with
+        | some why => "out " ++ why
+        | none => "in"
       else "in"
   else "in"
 
